@@ -11,7 +11,8 @@ if grep -rnE 'Admitted|admit\.|^\s*Axiom|^\s*Parameter|^\s*Conjecture|Unset Guar
 fi
 (cd coq && rm -f .Makefile.d && coq_makefile -f _CoqProject -o Makefile >/dev/null && timeout 3000 make -j16 2>&1 | tail -5)
 (cd .build/ocaml && coqc -Q ../../coq Fzf ../../coq/extract/Extract.v >/dev/null && cp ../../ocaml/driver.ml . \
-  && ocamlfind ocamlopt -w -a -O3 fzfmodel.mli fzfmodel.ml driver.ml -o model_driver 2>/dev/null)
+  && ocamlfind ocamlopt -w -a -O3 fzfmodel.mli fzfmodel.ml driver.ml -o model_driver 2>/dev/null \
+  && python3 ../../tools/driverhash.py > driver.sha256)
 REPO="${VERIF_REPO:-/repo}"
 cp "$REPO/go.sum" harness/go.sum
 (cd harness && go mod edit -replace "github.com/junegunn/fzf=$REPO")
